@@ -152,6 +152,26 @@ impl Peer {
         }
     }
 
+    /// After the peer closed the connection, writing to it must fail. Keeps writing single blanks until
+    /// a write is refused (true) or `within` has passed with every write accepted (false: the other
+    /// side stopped sending but still holds the connection open for reading).
+    pub fn write_refused(&mut self, within: Duration) -> bool {
+        if self.write_failed {
+            return true;
+        }
+        let deadline = Instant::now() + within;
+        loop {
+            if self.writer.write_all(b" ").is_err() || self.writer.flush().is_err() {
+                self.write_failed = true;
+                return true;
+            }
+            if Instant::now() >= deadline {
+                return false;
+            }
+            std::thread::sleep(Duration::from_millis(20));
+        }
+    }
+
     fn scan(st: &mut RxState) {
         while let Some(off) = st.bytes[st.scanned..].iter().position(|b| *b == 0) {
             let piece = &st.bytes[st.scanned..st.scanned + off];
